@@ -69,7 +69,7 @@ class SeriesStore:
     aug: bool
 
 
-def series_stores(cfg: CFG) -> List[SeriesStore]:
+def series_stores(cfg: CFG, lf: Optional[LocalFlow] = None) -> List[SeriesStore]:
     out: List[SeriesStore] = []
     for n in cfg.nodes:
         a = n.ast
@@ -77,6 +77,11 @@ def series_stores(cfg: CFG) -> List[SeriesStore]:
             continue
         for sub in subscript_store_targets(a):
             base = sub.value
+            if lf is not None and isinstance(base, ast.Name) and base.id in lf.locals:
+                # `values = self.__dict__['_' + name]; values[t] = ...`: the store goes to what the local names
+                vals = lf.values_reaching(n.id, base.id)
+                if len(vals) == 1 and vals[0][0] != PARAM and vals[0][1] is not None and isinstance(vals[0][1], (ast.Subscript, ast.Attribute)):
+                    base = vals[0][1]
             value = a.value
             aug = isinstance(a, ast.AugAssign)
             # X.status[i] / X.iterations[i] / X.<series>[i]
@@ -112,7 +117,7 @@ class SolverShape:
         self.eff = effect_nodes(self.cfg, effects_of(repo))
         self.eval_call = eval_call
         self._guards: Dict[int, List[Tuple[int, str]]] = {}
-        self.stores = series_stores(self.cfg)
+        self.stores = series_stores(self.cfg, self.lf)
         # --- the evaluation call and its loop
         ev = self.calls_self(eval_call)
         if len(ev) != 1:
@@ -124,6 +129,7 @@ class SolverShape:
         if self.loop.kind != 'for' or not isinstance(self.loop.ast.target, ast.Name):
             raise Unsupported(f'{qualname}: pass loop is not a `for <name> in ...` loop')
         self.counter = self.loop.ast.target.id
+        self.conv_label = 'T'  # label of the edge of the convergence test taken when the pass has converged
 
     @property
     def flags(self):
@@ -132,6 +138,56 @@ class SolverShape:
             from fsa.pathsens import Flags
             self._flags = Flags(self.cfg, self.fi.params())
         return self._flags
+
+    @property
+    def sym(self):
+        """Gated symbolic values of the function's locals (fsa/gated.py)."""
+        if getattr(self, '_sym', None) is None:
+            from fsa.gated import SymExec
+            self._sym = SymExec(self.fi.node)
+            self._stmt_of_test = {}
+            for s_ in ast.walk(self.fi.node):
+                if isinstance(s_, (ast.If, ast.While)):
+                    self._stmt_of_test[id(s_.test)] = s_
+        return self._sym
+
+    def value_at(self, nid: int, e: ast.AST, keep=()) -> ast.AST:
+        """`e` as read at CFG node `nid`, locals replaced by their gated values (names in `keep` left alone)."""
+        from fsa.gated import canon
+        se = self.sym
+        n = self.cfg.nodes[nid]
+        st = n.ast
+        if n.kind in ('test',):
+            st = self._stmt_of_test.get(id(n.ast))
+        if st is None or id(st) not in se.before:
+            raise Unsupported(f'{self.q}: node L{n.lineno} not visited by the symbolic evaluator')
+        env = {k: v for k, v in se.before[id(st)].items() if k not in keep}
+        out = canon(se.subst(e, env))
+        if keep:
+            # values computed earlier from a kept name carry its expansion: fold those back to the name
+            dumps = {}
+            for k in keep:
+                if k in se.before[id(st)]:
+                    dumps[ast.dump(canon(se.before[id(st)][k]))] = k
+
+            class Fold(ast.NodeTransformer):
+                def generic_visit(self, node):
+                    if isinstance(node, ast.expr) and ast.dump(node) in dumps:
+                        return ast.Name(id=dumps[ast.dump(node)], ctx=ast.Load())
+                    return super().generic_visit(node)
+
+            out = ast.fix_missing_locations(Fold().visit(out))
+        return out
+
+    @property
+    def mode_flags(self):
+        """Flag analysis with the policy parameters split by value: errors in {raise, skip, ignore, replace, <other>},
+        failures in {raise, ignore, <other>}."""
+        if getattr(self, '_mode_flags', None) is None:
+            from fsa.pathsens import Flags, OTHER
+            self._mode_flags = Flags(self.cfg, self.fi.params(), domains={'errors': ['raise', 'skip', 'ignore', 'replace', OTHER],
+                                                                            'failures': ['raise', 'ignore', OTHER]})
+        return self._mode_flags
 
     def status_member(self, tok) -> Optional[str]:
         """SolutionStatus member named by an abstract value: `SolutionStatus.X.value`, or a string literal equal
@@ -158,8 +214,17 @@ class SolverShape:
                 vals = self.lf.values_reaching(nid, x.id)
                 if len(vals) == 1 and vals[0][0] != PARAM and vals[0][1] is not None:
                     site, v = vals[0]
-                    if not any(isinstance(y, (ast.Yield, ast.Await, ast.NamedExpr, ast.Lambda, ast.ListComp, ast.DictComp, ast.SetComp, ast.GeneratorExp, ast.Call)) for y in ast.walk(v)):
-                        mapping[x.id] = self.expand(site, v, depth - 1, stop)
+                    pure_calls = all(((dotted(y.func) or '').startswith(('np.', 'numpy.')) or dotted(y.func) in ('len', 'abs', 'int', 'float', 'bool', 'min', 'max'))
+                                     and dotted(y.func) not in ('np.array', 'np.copy', 'numpy.array')
+                                     for y in ast.walk(v) if isinstance(y, ast.Call))
+                    if pure_calls and not any(isinstance(y, (ast.Yield, ast.Await, ast.NamedExpr, ast.Lambda, ast.ListComp, ast.DictComp, ast.SetComp, ast.GeneratorExp)) for y in ast.walk(v)):
+                        # read through only while the names the definition mentions still mean the same here
+                        stable = all(self.lf.defs_reaching(site, y.id) == self.lf.defs_reaching(nid, y.id)
+                                     for y in ast.walk(v) if isinstance(y, ast.Name) and isinstance(y.ctx, ast.Load) and y.id in self.lf.locals and y.id != x.id)
+                        if stable:
+                            inner = self.expand(site, v, depth - 1, stop)
+                            if not any(isinstance(y, ast.Name) and y.id == x.id for y in ast.walk(inner)):
+                                mapping[x.id] = inner
         return substitute(e, mapping) if mapping else e
 
     # -- generic finders -----------------------------------------------------
@@ -254,13 +319,24 @@ class SolverShape:
             if 'tol' not in {x.id for x in ast.walk(n.ast) if isinstance(x, ast.Name)}:
                 continue
             try:
-                cands.append((n, convergence_test(n.ast)))
+                r = convergence_test(n.ast)
+                lab = 'T'
+                if r[0] != 'all':
+                    # `if not converged: continue`: the test states the negation; read the predicate it negates
+                    try:
+                        r2 = convergence_test(ast.UnaryOp(op=ast.Not(), operand=n.ast))
+                        if r2[0] == 'all':
+                            r, lab = r2, 'F'
+                    except (Wrong, Unknown):
+                        pass
+                cands.append((n, r, lab))
             except Wrong as e:
                 raise Wrong(f'{self.q}:L{n.lineno}: {e}')
             except Unknown as e:
                 unknown.append((n, str(e)))
         if len(cands) == 1 and not unknown:
-            return cands[0]
+            self.conv_label = cands[0][2]
+            return cands[0][0], cands[0][1]
         if unknown:
             raise Unknown(f'{self.q}: convergence test not in the idiom table at L{unknown[0][0].lineno}: {unknown[0][1]}')
         raise AnchorMissing(f'{self.q}: convergence test: found {len(cands)} candidates')
@@ -330,54 +406,32 @@ def guard_atoms(shape: SolverShape, nid: int) -> List[Tuple[ast.AST, bool, Node]
 
 
 def is_normalised_position(shape: SolverShape, nid: int, name: str, src: str = 't') -> bool:
-    """Does `name` at node `nid` hold `src + len(self.span) if src < 0 else src`?
-    Accepted idioms: copy of `src` followed by a conditional `+= len(self.span)`
-    under `<name> < 0`; or a conditional expression of that shape."""
-    lf = shape.lf
-    defs = lf.defs_reaching(nid, name)
-    if not defs or PARAM in defs:
+    """Does `name` at node `nid` hold `src + len(self.span) if src < 0 else src`?  Decided on the gated value of the
+    local, so a copy followed by a conditional `+=`, a conditional expression, or the length taken through another
+    local are all the same."""
+    if name == src or name not in shape.lf.locals:
         return False
-    plain = []
-    augs = []
-    for d in defs:
-        a = shape.cfg.nodes[d].ast
-        if isinstance(a, ast.Assign):
-            plain.append((d, a))
-        elif isinstance(a, ast.AugAssign):
-            augs.append((d, a))
-        else:
-            return False
-    len_span = {'len(self.span)', "len(self.__dict__['span'])"}
-    if len(plain) == 1 and len(augs) == 1:
-        d0, a0 = plain[0]
-        d1, a1 = augs[0]
-        if not (isinstance(a0.value, ast.Name) and a0.value.id == src):
-            return False
-        if not (isinstance(a1.op, ast.Add) and text(a1.value) in len_span):
-            return False
-        # the augmentation is guarded by `<name> < 0`
-        ok = False
-        want = Cmp('<', Affine(Fraction(0), {name: Fraction(1)}))
-        for (tid, lab) in shape.guards_of(d1):
-            tn = shape.cfg.nodes[tid]
-            c = cmp_of(tn.ast) if tn.kind == 'test' else None
-            if c is not None and lab == 'T' and c == want:
-                ok = True
-        # and the aug's own reaching def is the plain copy only
-        return ok and lf.defs_reaching(d1, name) == frozenset([d0])
-    if len(plain) == 1 and not augs:
-        v = plain[0][1].value
-        if isinstance(v, ast.IfExp):
-            c = cmp_of(v.test)
-            want = Cmp('<', Affine(Fraction(0), {src: Fraction(1)}))
-            if c is not None and c == want:
-                a_t = affine(v.body)
-                a_f = affine(v.orelse)
-                if a_f == affine(expr(src)) and any(
-                    a_t == affine(expr(f'{src} + {ls}')) for ls in len_span
-                ):
-                    return True
-    return False
+    try:
+        v = shape.value_at(nid, ast.Name(id=name, ctx=ast.Load()))
+    except Unsupported:
+        return False
+    if not isinstance(v, ast.IfExp):
+        return False
+    c = cmp_of(v.test)
+    want = Cmp('<', Affine(Fraction(0), {src: Fraction(1)}))
+    body, other = v.body, v.orelse
+    if c is not None and c.as_int() == want.negate().as_int():
+        body, other = other, body
+    elif c is None or c.as_int() != want.as_int():
+        return False
+    try:
+        a_t, a_f = affine(body), affine(other)
+    except Exception:
+        return False
+    if a_t is None or a_f is None:
+        return False
+    len_span = ('len(self.span)', "len(self.__dict__['span'])")
+    return a_f == affine(expr(src)) and any(a_t == affine(expr(f'{src} + {ls}')) for ls in len_span)
 
 
 # ---------------------------------------------------------------------------
@@ -574,26 +628,19 @@ def value_roles(sh: SolverShape) -> Tuple[str, str]:
 def position_cmp(shape: SolverShape, nid: int, atom: ast.AST, src: str = 't'):
     """Canonical integer comparison of `atom` with locals read through and the local holding the normalised
     position replaced by the atom `P`; None if the atom is not a comparison mentioning that position."""
-    from fsa.match import substitute
-    e = atom
-    for _ in range(4):
-        mapping = {}
-        for x in ast.walk(e):
-            if isinstance(x, ast.Name) and x.id in shape.lf.locals and x.id not in mapping and not is_normalised_position(shape, nid, x.id, src):
-                vals = shape.lf.values_reaching(nid, x.id)
-                if len(vals) == 1 and vals[0][0] != PARAM and vals[0][1] is not None:
-                    v = vals[0][1]
-                    calls = [c for c in ast.walk(v) if isinstance(c, ast.Call)]
-                    if all(dotted(c.func) == 'len' for c in calls) and not any(isinstance(y, (ast.IfExp, ast.Lambda, ast.ListComp)) for y in ast.walk(v)):
-                        mapping[x.id] = v
-        if not mapping:
-            break
-        e = substitute(e, mapping)
+    all_pos = [k for k in sorted(shape.lf.locals) if is_normalised_position(shape, nid, k, src)]
+    if not all_pos:
+        return None
+    try:
+        e = shape.value_at(nid, atom, keep=tuple(all_pos))
+    except Unsupported:
+        e = atom
+    pos_names = [k for k in all_pos if any(isinstance(x, ast.Name) and x.id == k for x in ast.walk(e))]
+    if not pos_names:
+        return None
     c = cmp_of(e)
     if c is None:
         return None
-    pos_names = [k for k in c.expr.terms if k.isidentifier() and is_normalised_position(shape, nid, k, src)]
-    if not pos_names:
-        return None
     subst = {pos_names[0]: Affine(Fraction(0), {'P': Fraction(1)})}
-    return cmp_of(e, subst).as_int()
+    cc = cmp_of(e, subst)
+    return cc.as_int() if cc is not None else None
